@@ -618,6 +618,13 @@ def rich_schema(rng, long_names=None):
         ms = ",\n".join(f"    method m{j}({rng.choice(structs)}) @ {j} returns {rng.choice(structs)}" for j in range(rng.randint(1, 3)))
         out.append(f"service Sv{k} @ {k + 1} {{\n{ms},\n}}")
         svcs.append(f"Sv{k}")
+    if len(structs) >= 3 and rng.random() < 0.7:
+        # several payloads that travel in BOTH directions (an input of one method, the output of another): whatever a generator
+        # collects about them in sets must not decide the order of what it writes
+        a, b, c = rng.sample(structs, 3)
+        out.append(f"service Echo @ 9 {{\n    method ping({a}) @ 0 returns {b},\n    method pong({b}) @ 1 returns {c},\n"
+                   f"    method peng({c}) @ 2 returns {a},\n}}")
+        svcs.append("Echo")
     for dname in devices:
         if rng.random() < 0.7:
             sv = rng.sample(svcs, rng.randint(0, len(svcs)))
